@@ -153,6 +153,11 @@ func (p *cffParser) parse() ([]CFF, error) {
 		return nil, fmt.Errorf("top DICT length doest not match Names (%d, %d)", len(topDicts),
 			len(fontNames))
 	}
+	// an Opentype font has exactly one font (see [Parse]): do not parse the other ones,
+	// which may all refer to the same data
+	if len(topDicts) != 1 {
+		return nil, errors.New("only one font is allowed CFF table")
+	}
 
 	// parse the String INDEX.
 	strs, err := p.parseUserStrings()
@@ -231,12 +236,25 @@ func (p *cffParser) parse() ([]CFF, error) {
 				return nil, fmt.Errorf("invalid number of font dicts: %d (for %d)",
 					len(topDicts), indexExtent)
 			}
+			// a font dict is selected by a byte
+			if len(topDicts) > 256 {
+				return nil, fmt.Errorf("invalid number of font dicts: %d", len(topDicts))
+			}
 			multiSubrs := make([][][]byte, len(topDicts))
+			// the font dicts may share their private dict: parse each one once
+			type privateDictRef struct{ offset, length int32 }
+			parsed := make(map[privateDictRef][][]byte)
 			for i, topDict := range topDicts {
-				multiSubrs[i], err = p.parsePrivateDICT(topDict.privateDictOffset, topDict.privateDictLength)
-				if err != nil {
-					return nil, err
+				ref := privateDictRef{topDict.privateDictOffset, topDict.privateDictLength}
+				subrs, done := parsed[ref]
+				if !done {
+					subrs, err = p.parsePrivateDICT(topDict.privateDictOffset, topDict.privateDictLength)
+					if err != nil {
+						return nil, err
+					}
+					parsed[ref] = subrs
 				}
+				multiSubrs[i] = subrs
 			}
 			out[i].localSubrs = multiSubrs
 		}
